@@ -184,6 +184,27 @@ func (d *Deriver) derive(t reflect.Type, ts eff, mergeGlobal bool, depth int) (*
 		ts = ts.merge(d.getByType(t))
 	}
 	s := &Schema{GoType: t}
+	if t.Implements(serializableType) {
+		// API.encode / API.decode delegate to the type's own Encode / Decode before looking at its kind
+		ct := t
+		if t.Kind() == reflect.Ptr {
+			ct = t.Elem()
+		}
+		info, ok := reflect.New(ct).Elem().Interface().(customInfo)
+		if !ok {
+			return nil, fmt.Errorf("custom Serializable %s is not one of the harness's types", t)
+		}
+		code, err := codeOf(ts)
+		if err != nil {
+			return nil, err
+		}
+		cs := &Schema{K: KCustom, Code: code, Fixed: info.CustomFixed(), GoType: ct}
+		if t.Kind() == reflect.Ptr {
+			return &Schema{K: KPtr, Elem: cs, GoType: t}, nil
+		}
+
+		return cs, nil
+	}
 	switch t.Kind() {
 	case reflect.Ptr:
 		if t == bigIntType {
